@@ -422,101 +422,119 @@ func runC11(c *Ctx, r *Report) {
 		mapEls := map[*types.Func]bool{c.Fn("object", "SmallMap.mapElements"): true, c.Fn("object", "BigMap.mapElements"): true}
 		n5 := 0
 		for _, name := range []string{"SmallMap.Append", "BigMap.Append"} {
-			fn := c.SSAFn(c.Fn("object", name))
-			recv, right := fn.Params[0], fn.Params[1]
-			// which operand a pair value comes from
-			var origin func(v ssa.Value, depth int) string
-			origin = func(v ssa.Value, depth int) string {
-				if depth > 10 || v == nil {
+			entry := c.SSAFn(c.Fn("object", name))
+			// the method itself, then the helpers of its package it hands an operand (or a part of one) to
+			var analyse func(fn *ssa.Function, paramOrigin map[*ssa.Parameter]string, hdepth int)
+			analyse = func(fn *ssa.Function, paramOrigin map[*ssa.Parameter]string, hdepth int) {
+				fname := ssaFuncName(fn)
+				if fn != entry {
+					fname += " (for " + ssaFuncName(entry) + ")"
+				}
+				// which operand a pair value comes from
+				var origin func(v ssa.Value, depth int) string
+				origin = func(v ssa.Value, depth int) string {
+					if depth > 10 || v == nil {
+						return "?"
+					}
+					switch x := v.(type) {
+					case *ssa.Parameter:
+						if o, ok := paramOrigin[x]; ok {
+							return o
+						}
+					case *ssa.UnOp:
+						return origin(x.X, depth+1)
+					case *ssa.FieldAddr:
+						return origin(x.X, depth+1)
+					case *ssa.Field:
+						return origin(x.X, depth+1)
+					case *ssa.IndexAddr:
+						return origin(x.X, depth+1)
+					case *ssa.Index:
+						return origin(x.X, depth+1)
+					case *ssa.Slice:
+						return origin(x.X, depth+1)
+					case *ssa.Alloc:
+						// a spilled receiver (value receiver copied to a local)
+						for _, ref := range *x.Referrers() {
+							if st, ok := ref.(*ssa.Store); ok && st.Addr == ssa.Value(x) {
+								return origin(st.Val, depth+1)
+							}
+						}
+					case *ssa.Call:
+						if x.Common().IsInvoke() && x.Common().Method.Name() == "mapElements" {
+							return origin(x.Common().Value, depth+1)
+						}
+						if obj := calleeObj(x); obj != nil && mapEls[obj] && len(x.Common().Args) > 0 {
+							return origin(x.Common().Args[0], depth+1)
+						}
+					case *ssa.Extract:
+						return origin(x.Tuple, depth+1)
+					case *ssa.Next:
+						return origin(x.Iter, depth+1)
+					case *ssa.Range:
+						return origin(x.X, depth+1)
+					case *ssa.Phi:
+						o := ""
+						for _, e := range x.Edges {
+							oe := origin(e, depth+1)
+							if o == "" {
+								o = oe
+							} else if o != oe {
+								return "?"
+							}
+						}
+						return o
+					}
 					return "?"
 				}
-				switch x := v.(type) {
-				case *ssa.Parameter:
-					if x == recv {
-						return "left"
+				eachInstr(fn, func(in ssa.Instruction) {
+					call, ok := in.(*ssa.Call)
+					if !ok {
+						return
 					}
-					if x == right {
-						return "right"
-					}
-				case *ssa.UnOp:
-					return origin(x.X, depth+1)
-				case *ssa.FieldAddr:
-					return origin(x.X, depth+1)
-				case *ssa.Field:
-					return origin(x.X, depth+1)
-				case *ssa.IndexAddr:
-					return origin(x.X, depth+1)
-				case *ssa.Index:
-					return origin(x.X, depth+1)
-				case *ssa.Slice:
-					return origin(x.X, depth+1)
-				case *ssa.Alloc:
-					// a spilled receiver (value receiver copied to a local)
-					for _, ref := range *x.Referrers() {
-						if st, ok := ref.(*ssa.Store); ok && st.Addr == ssa.Value(x) {
-							return origin(st.Val, depth+1)
+					cc := call.Common()
+					var args []ssa.Value
+					switch {
+					case cc.IsInvoke() && cc.Method.Name() == "Set":
+						args = cc.Args
+					case !cc.IsInvoke() && calleeObj(call) != nil && calleeObj(call).Name() == "Set" && len(cc.Args) == 3:
+						args = cc.Args[1:]
+					default:
+						// a helper of the package that is handed an operand
+						if h := cc.StaticCallee(); h != nil && h.Pkg == entry.Pkg && len(h.Blocks) > 0 && hdepth < 2 && h != fn && len(cc.Args) == len(h.Params) {
+							po := map[*ssa.Parameter]string{}
+							for i, a := range cc.Args {
+								if o := origin(a, 0); o == "left" || o == "right" {
+									po[h.Params[i]] = o
+								}
+							}
+							if len(po) > 0 {
+								analyse(h, po, hdepth+1)
+							}
+							return
 						}
-					}
-				case *ssa.Call:
-					if x.Common().IsInvoke() && x.Common().Method.Name() == "mapElements" {
-						return origin(x.Common().Value, depth+1)
-					}
-					if obj := calleeObj(x); obj != nil && mapEls[obj] && len(x.Common().Args) > 0 {
-						return origin(x.Common().Args[0], depth+1)
-					}
-				case *ssa.Extract:
-					return origin(x.Tuple, depth+1)
-				case *ssa.Next:
-					return origin(x.Iter, depth+1)
-				case *ssa.Range:
-					return origin(x.X, depth+1)
-				case *ssa.Phi:
-					o := ""
-					for _, e := range x.Edges {
-						oe := origin(e, depth+1)
-						if o == "" {
-							o = oe
-						} else if o != oe {
-							return "?"
+						// bulk copy: append(res.kv, X...) / copy(dst, X)
+						if bi, ok := cc.Value.(*ssa.Builtin); ok && (bi.Name() == "append" || bi.Name() == "copy") && len(cc.Args) == 2 {
+							if o := origin(cc.Args[1], 0); o == "right" {
+								n5++
+								r.Fail("C11.R5", fname, "bulk copy into the result takes the left operand's pairs", c.Pos(call.Pos()), "the result of + starts from the right operand's pairs: setting the left operand's pairs over them makes the left operand win on equal keys ({1:\"L\"} + {1:\"R\",...} gives \"L\")")
+							} else if o == "left" {
+								n5++
+								r.Ok("C11.R5", fname, "bulk copy into the result takes the left operand's pairs", c.Pos(call.Pos()))
+							}
 						}
+						return
 					}
-					return o
-				}
-				return "?"
+					if len(args) != 2 {
+						return
+					}
+					n5++
+					ok2 := origin(args[0], 0) == "right" && origin(args[1], 0) == "right"
+					r.Check(ok2, "C11.R5", fname, "Set in the merge loop takes key and value from the right operand", c.Pos(call.Pos()),
+						"a Set call in the merge takes its pair from "+origin(args[0], 0)+"/"+origin(args[1], 0)+" instead of the right operand: on equal keys the wrong side wins")
+				})
 			}
-			eachInstr(fn, func(in ssa.Instruction) {
-				call, ok := in.(*ssa.Call)
-				if !ok {
-					return
-				}
-				cc := call.Common()
-				var args []ssa.Value
-				switch {
-				case cc.IsInvoke() && cc.Method.Name() == "Set":
-					args = cc.Args
-				case !cc.IsInvoke() && calleeObj(call) != nil && calleeObj(call).Name() == "Set" && len(cc.Args) == 3:
-					args = cc.Args[1:]
-				default:
-					// bulk copy: append(res.kv, X...) / copy(dst, X)
-					if bi, ok := cc.Value.(*ssa.Builtin); ok && (bi.Name() == "append" || bi.Name() == "copy") && len(cc.Args) == 2 {
-						if o := origin(cc.Args[1], 0); o == "right" {
-							n5++
-							r.Fail("C11.R5", ssaFuncName(fn), "bulk copy into the result takes the left operand's pairs", c.Pos(call.Pos()), "the result of + starts from the right operand's pairs: setting the left operand's pairs over them makes the left operand win on equal keys ({1:\"L\"} + {1:\"R\",...} gives \"L\")")
-						} else if o == "left" {
-							n5++
-							r.Ok("C11.R5", ssaFuncName(fn), "bulk copy into the result takes the left operand's pairs", c.Pos(call.Pos()))
-						}
-					}
-					return
-				}
-				if len(args) != 2 {
-					return
-				}
-				n5++
-				ok2 := origin(args[0], 0) == "right" && origin(args[1], 0) == "right"
-				r.Check(ok2, "C11.R5", ssaFuncName(fn), "Set in the merge loop takes key and value from the right operand", c.Pos(call.Pos()),
-					"a Set call in the merge takes its pair from "+origin(args[0], 0)+"/"+origin(args[1], 0)+" instead of the right operand: on equal keys the wrong side wins")
-			})
+			analyse(entry, map[*ssa.Parameter]string{entry.Params[0]: "left", entry.Params[1]: "right"}, 0)
 		}
 		r.Floor("C11.R5", 4)
 		_ = n5
